@@ -29,6 +29,20 @@ claimed={
    "every error value returned by Provide/Decorate/Invoke and every escaping panic classified with public predicates only and compared with the failure the harness injected or the rejection cause it constructed","message text never compared"),
  "C18":("exploration","expected Info entry lists computed from the signature spec, compared through Input/Output String()","E-dyn",
    "Provide/Decorate/Invoke Info structs compared entry by entry with the list derived from the function spec (nested objects flattened, variadic and error dropped, As expanded); untouched on rejection","ID injectivity is checked by the pool engine when built"),
+ "C05":("exploration","real cycle search on every small digraph via hook (exhaustive n<=4) + exhaustive/sampled dig programs under the strict/permissive cycle-graph oracle, child process per batch","E-graph + E-dyn",
+   "three layers: every digraph with <=4 nodes and sampled larger ones pushed through the real search with an independent acyclicity reference and path validation; every dig program with <=3 constructors over 4 scope trees x scope assignment x Export x Provide order x scope timing x Defer (thorough; stratified sample in quick); sampled larger cyclic programs; verdicts judged by must/may cycle rules, process survival and bounded call depth","termination is restated as bounded recursion depth and process survival (a dead worker is a violation with the history as witness)"),
+ "C06":("exploration","differential runner: history vs. the same history without the calls the real container rejected","E-dyn x2",
+   "every later observable (verdict classes, executions with abstracted provenance, Info, DOT text, String lines) must be identical with and without the rejected registrations; rejected functions must never execute","rejection-heavy profile: ~35% deliberately invalid inputs of 39 causes, duplicates, cycles in target and descendant scopes, multi-key decorator conflicts"),
+ "C14":("exploration","grammar-generated garbage (values, signatures, struct tags, options) applied inside valid histories; recover at the API boundary + no-trace differential","E-dyn (garbage grammar)",
+   "any panic escaping Provide/Decorate/Invoke/Visualize/String/option constructors is a violation; rejected inputs must leave no trace (differential); 39 named invalid causes are additionally checked for rejection with a dig error","nil Option values and re-entrant use are not generated"),
+ "C15":("exploration","metamorphic differential: same history under re-drawn signature encodings (In/Out nesting, variadic, option vs tag)","E-dyn x2",
+   "verdict class, execution set, abstracted provenance of every argument and Info lists must agree between the two encodings, faults included","functions using As and soft groups are not re-encoded (evaluation order of soft fields is encoding dependent by design)"),
+ "C16":("exploration","metamorphic differential: permuted registration runs, moved scope creations, toggled Defer","E-dyn x2",
+   "the block stays all-accepted, every Invoke keeps its success/failure verdict and every successful Invoke its wiring; Defer toggled only when no cycle is ever reported","no faults, no soft groups; what a failing Invoke built before failing is not compared"),
+ "C17":("exploration","metamorphic differential: DryRun container vs normal container","E-dyn x2",
+   "the dry container must execute nothing in any scope and report the same verdict class, Info and DOT for every operation as the normal container with all faults off","callbacks not compared"),
+ "C19":("exploration","own strict DOT + HTML-label parser; structural comparison with the spec state; failure pictures validated against the demand paths of the spec","E-pool",
+   "clusters <-> accepted constructors (results, dependency edges, dashed iff optional, group nodes and members); with the error of a failed Invoke: root cause = failing constructor or missing types, transitive failures form demand paths to it, everything else pruned; CanVisualizeError judged","declared pool functions give distinct constructor ids; failures inside decorators and cycle errors are outside the claim"),
  "C20":("fault_enumeration","callback stream interleaved with the execution log; mock clock via hook","E-dyn",
    "exactly one callback right after each execution and never otherwise; Error nil / root cause identity / PanicError; Runtime equals the mock-clock advance made inside the function","unrecovered panics: only presence is checked"),
 }
@@ -44,7 +58,9 @@ m={"version":1,"setup_cmd":"./verif.sh setup",
  "hooks":{"guard":"verif","enable":"go build -tags verif (done by ./verif.sh; harness module replaces go.uber.org/dig with /repo)",
   "baseline_off_cmd":"cd /repo && GOFLAGS=-mod=mod GOPROXY=off GOSUMDB=off GOTOOLCHAIN=local go test -vet=off -count=1 ./...",
   "source_commits":["3162adb"],"add_only":True},
- "engines":[{"name":"E-dyn","path":"/verif/harness","serves_properties":[c["property_id"] for c in checks],"kind_free_text":"runtime monitor: reflect-materialised user functions with provenance tokens, online spec-state trace checker, child process per batch"}],
+ "engines":[{"name":"E-dyn","path":"/verif/harness","serves_properties":[c["property_id"] for c in checks],"kind_free_text":"runtime monitor: reflect-materialised user functions with provenance tokens, online spec-state trace checker, differential runner, child process per batch"},
+  {"name":"E-pool","path":"/verif/harness/pool","serves_properties":["C18","C19","C20"],"kind_free_text":"384 generated declared functions (distinct code pointers) forwarding to the monitor body: constructor ids, locations, callback names"},
+  {"name":"E-graph","path":"/verif/harness/c05.go","serves_properties":["C05"],"kind_free_text":"hook VerifIsAcyclic: the real cycle search on arbitrary digraphs"}],
  "checks":checks,"not_applicable":na,
  "notes":"Runtime monitoring only. Exit 0 held / 1 VIOLATION / 3 INCONCLUSIVE. KNOWN_FINDINGS.txt lists 12 defects found by the monitors, all repaired by fix: commits in /repo."}
 json.dump(m,open('/verif/MANIFEST.json','w'),indent=1)
